@@ -1,7 +1,8 @@
 """C18 - one schema object can be built and used from many threads with unchanged results.
 
 Spec: spec/Threads.tla (double-checked build lock, one action per step).  A: for 2-3 threads TLC
-checks BuiltOnce, NoPartialUse, MutualExclusion, FlagMeansFull and termination under weak fairness;
+checks BuiltOnce, NoPartialUse, MutualExclusion, FlagMeansFull and termination under weak fairness; Apalache
+discharges an inductive invariant (MC_ThreadsInd.tla, 4 threads) that implies the four safety properties at any depth;
 the two named deviations (re-check removed, flag set before the build) must be refuted (non-vacuity).
 B: a controlled scheduler serialises 2-4 real threads that race to build one unbuilt schema and then
 validate documents: switch points at every function entry inside the package (sys.monitoring), the
@@ -261,6 +262,11 @@ def run(ctx: Ctx):
                     expect_violation=expect is not None, count=expect is None, tag=f"A-{n}-{re_}-{ff}")
         if expect and expect not in r.invariant_violated:
             raise MachineryError(f"vacuity: deviation Recheck={re_} FlagFirst={ff} does not violate {expect}")
+    # unbounded in depth: the inductive invariant of the protocol (Apalache): Init => IndInv, IndInv is preserved
+    # by every step, IndInv => the four safety properties
+    ctx.apalache("MC_ThreadsInd", "Init", "IndInv", 0)
+    ctx.apalache("MC_ThreadsInd", "IndInit", "IndInv", 1)
+    ctx.apalache("MC_ThreadsInd", "IndInit", "Safety", 0)
     cases = [c for c in pool.build_pool(ctx, scale=3)
              if not (c["origin"] == "content-model" and not c.get("strong", True))]
     import collections
